@@ -106,15 +106,19 @@ retry:
 			}
 			// TODO: why is this necessary to ensure correct position info?
 			p.readEOF = false
-			if p.openBquotes > 0 && p.bsp < uint(len(p.bs)) &&
-				((bquotes < p.openBquotes && bquoteEscaped(p.bs[p.bsp])) ||
+			if p.openBquotes > 0 {
+				// Peek rather than look at the buffer directly,
+				// as the buffer may end right after the backslash.
+				next := p.peek()
+				if (bquotes < p.openBquotes && bquoteEscaped(next)) ||
 					// Backquotes within double quotes also escape double quotes.
-					(bquotes < p.openBquoteDbls && p.bs[p.bsp] == '"')) {
-				// We turn backquote command substitutions into $(),
-				// so we remove the extra backslashes needed by the backquotes.
-				bquotes++
-				p.col++
-				goto retry
+					(bquotes < p.openBquoteDbls && next == '"') {
+					// We turn backquote command substitutions into $(),
+					// so we remove the extra backslashes needed by the backquotes.
+					bquotes++
+					p.col++
+					goto retry
+				}
 			}
 		}
 		if b == '`' {
